@@ -69,6 +69,7 @@ template<class C, class R> static void hier_case(const Pattern &p, hx::Rng &rng,
             if (it->A) hx::prove_eq_vec("level "+std::to_string(li)+": stored matrix = (re-scaled) Galerkin product of the level above", flat(dense_of(*it->A)), flat(cur));
             if (it->A) hx::require("level matrix rows sorted, well-formed", well_formed(*it->A,true));
             if (last) {
+                hx::require("the last level carries no transfer operators: every coarse matrix that was built became a level", !it->P && !it->R, "level "+std::to_string(li)+" has P/R but no coarser level follows");
                 if (it->solve) { size_t m=cur.size(); std::vector<scalar> g; for (size_t i=0;i<m;++i) g.push_back(var("g"+std::to_string(i),1.0+0.5*i)); NV G=hx::to_numa(g), X(m,false); for (size_t i=0;i<m;++i) X[i]=scalar(0); (*it->solve)(G,X);
                     std::vector<scalar> Ax; for (size_t i=0;i<m;++i) { scalar t=0; for (size_t j=0;j<m;++j) t+=cur[i][j]*X[j]; Ax.push_back(t); } hx::prove_eq_vec("coarsest level: direct solver solves the Galerkin system exactly", Ax, g);
                     hx::require("direct solver only when rows <= coarse_enough and direct_coarse", m<=coarse_enough && direct_coarse); }
